@@ -146,6 +146,20 @@ func newRound(seed int64, id string, topo *model.Topo, withProvider bool) (*Roun
 	r := &Round{W: w, Topo: topo, seed: seed, id: id, inflight: map[string]int{}, overlaps: map[string]int{},
 		counts: map[string]int64{}, yieldRng: evid.NewRng(seed, "yield"+id, 0)}
 	w.In.Yield = r.yield
+	// also between two IPAM calls of the plugin (no API-server call in between), more sparingly: they are frequent
+	w.In.IPAMYield = func(method string, after bool) {
+		r.yieldMu.Lock()
+		x := r.yieldRng.Intn(100)
+		us := 20 + r.yieldRng.Intn(180)
+		r.yieldMu.Unlock()
+		switch {
+		case x < 70:
+		case x < 90:
+			runtimeGosched()
+		default:
+			time.Sleep(time.Duration(us) * time.Microsecond)
+		}
+	}
 	if err := w.StartPlugin(); err != nil {
 		return nil, err
 	}
